@@ -350,6 +350,9 @@ def check(ctx):
             rep.refuted("R-C41-apply", qm.relpath, "apply", s.stmt,
                         "qp.apply can queue the caller's own object without copying it: an already-queued object would be de-duplicated "
                         "(identity-keyed queue) instead of being recorded a second time, and later wrappers could dequeue it")
+    from .c41_extra import extra
+
+    extra(ctx, rep)
     return rep
 
 
